@@ -141,16 +141,22 @@ pub fn families() -> Vec<(Gram, Vec<&'static str>)> {
         (Gram::Lark("start: /[a-z]+/ \"=done\"\n".into()), vec!["xy=done", "=do", "ne"]),
         (Gram::Json(json!({"const":"ok"})), vec!["\"ok\"", "ok"]),
         (Gram::Regex("(foo|bar)baz".into()), vec!["foobaz", "barbaz", "obaz"]),
+        // forced text whose last byte can start a longer token, followed by a wide string lexeme (where token slices apply)
+        (Gram::Lark("start: \"k:\" S\nS: /\"[^\"\\\\\\x00-\\x1F\\x7F]*\"/\n".into()), vec!["k:\"ab cd\"", "\"a", "\"ab", "b c", "d\"", ":\""]),
+        (Gram::Json(json!({"type":"object","properties":{"s":{"type":"string"},"t":{"type":"string","maxLength":12}},"required":["s","t"],"additionalProperties":false})), vec!["{\"s\":\"hello w\",\"t\":\"ab\"}", "\":\"h", "\"he", "llo", "\",\"t\":\"a", "\"ab"]),
     ]
 }
 
 pub fn build_world(rng: &mut Rng, texts: &[Vec<u8>], canonical: bool, slices: Option<&[String]>, kind: usize) -> anyhow::Result<World> {
-    let (words, eos) = match kind % 3 {
+    let (words, eos) = match if kind >= 3 { kind } else { kind % 3 } {
         0 => {
             let w = vocab::single_byte_words();
             let e = w.len() as u32 - 1;
             (w, e)
         }
+        // kind 3..: a vocabulary padded with special tokens up to 1100 entries, so that special ids with every
+        // leading-digit pattern exist (10xx, 1xx, 999/1000 boundaries of the \xFF[id] spelling)
+        k if k >= 3 => { let n = 20 + rng.below(30); vocab::synth_words(rng, texts, n, Some(1100)) }
         _ => { let n = 30 + rng.below(60); vocab::synth_words(rng, texts, n, None) }
     };
     World::new(words, eos, canonical, slices)
